@@ -229,6 +229,18 @@ theorem colt_forest_wf_insert (F : Forest) (row : Row) (h : ForestWf F) : Forest
 
 theorem colt_forest_wf_empty (m : Nat) : ForestWf (Forest.empty m) := aux_forestWf_empty m
 
+/-- `find_containing_leaf(row)` finds a leaf iff the row is stored, and that leaf holds the row -/
+theorem find_containing_leaf_spec (sk : Kind) (n d : Nat) (t : Ght n) (row : Row) (h : Wf sk n d t) :
+    ((gfindLeaf n d t row).isSome = true ↔ row ∈ grows n t) ∧
+    ∀ l, gfindLeaf n d t row = some l → row ∈ l.rows ∧ ∀ r ∈ l.rows, r ∈ grows n t :=
+  aux_findLeaf sk n d t row h
+
+/-- the cursor elements as printed by the driver (`nodeAt`) are the nodes whose rows
+`cursorRows` collects -/
+theorem cursor_node_rows (n : Nat) (p : List Key) (t : Ght n) :
+    (match nodeAt n p t with | some ⟨j, c⟩ => grows j c | none => []) = subRows n p t :=
+  aux_nodeAt_subRows n p t
+
 /-! ## what the code does *not* satisfy (witnesses replayed on the real code by the check) -/
 
 /-- F7: without `NoEmptyChild` the clause "`==`/`partial_cmp` agree with the set of rows" is
